@@ -15,3 +15,20 @@ Definition prog_GetContextStates : list act := [AcqMdib; ReadContent; ReadVersio
 Definition prog_GetContextStatesAll : list act := [AcqMdib; ReadContent; ReadVersion; RelMdib].
 Definition prog_commit : list act := [AcqTr; AcqMdib; Commit; Send; RelMdib; RelTr].
 Definition handler_programs : list (list act) := [prog_GetMdib; prog_GetMdState; prog_GetMdStateAll; prog_GetMdDescription; prog_GetMdDescriptionAll; prog_GetMdDescriptionGen; prog_GetMdStateGen; prog_GetContextStates; prog_GetContextStatesAll].
+(* commit programs of every transaction kind and one iteration of the periodic collector per period
+   (PeriodicReportsHandler._periodic_reports_send_loop; ReadVersion = the read that labels the PeriodicStates),
+   traced by harness/impl/c04_trace_impl.py *)
+Definition prog_commit_metric : list act := [AcqTr; AcqMdib; Commit; Send; RelMdib; RelTr].
+Definition prog_commit_alert : list act := [AcqTr; AcqMdib; Commit; Send; RelMdib; RelTr].
+Definition prog_commit_component : list act := [AcqTr; AcqMdib; Commit; Send; RelMdib; RelTr].
+Definition prog_commit_operational : list act := [AcqTr; AcqMdib; Commit; Send; RelMdib; RelTr].
+Definition prog_commit_context : list act := [AcqTr; AcqMdib; Commit; Send; RelMdib; RelTr].
+Definition prog_commit_context_new : list act := [AcqTr; AcqMdib; Commit; Send; RelMdib; RelTr].
+Definition prog_commit_rt_sample : list act := [AcqTr; AcqMdib; Commit; Send; RelMdib; RelTr].
+Definition prog_commit_descriptor : list act := [AcqTr; AcqMdib; Commit; Send; RelMdib; RelTr].
+Definition prog_commit_descriptor_create : list act := [AcqTr; AcqMdib; Commit; Send; RelMdib; RelTr].
+Definition prog_commit_descriptor_delete : list act := [AcqTr; AcqMdib; Commit; Send; RelMdib; RelTr].
+Definition prog_periodic_collect_500 : list act := [AcqMdib; ReadContent; ReadVersion; RelMdib].
+Definition prog_periodic_collect_1500 : list act := [AcqMdib; ReadContent; ReadVersion; RelMdib].
+Definition commit_programs : list (list act) := [prog_commit_metric; prog_commit_alert; prog_commit_component; prog_commit_operational; prog_commit_context; prog_commit_context_new; prog_commit_rt_sample; prog_commit_descriptor; prog_commit_descriptor_create; prog_commit_descriptor_delete].
+Definition periodic_programs : list (list act) := [prog_periodic_collect_500; prog_periodic_collect_1500].
